@@ -170,6 +170,8 @@ class Tensor:
         if isinstance(data, Tensor):
             self.copy_from(data); return
         
+        if isinstance(data, np.generic):
+            data = np.array(data)
         if not isinstance(data, np.ndarray):
             try:
                 data = np.array(data, dtype=default_type__)
